@@ -11,6 +11,7 @@ import LimnoriaModel.C18.ArgsInv
 import LimnoriaModel.C18.PluginCons
 import LimnoriaModel.C18.Threads
 import LimnoriaModel.C18.HeapLemmas
+import LimnoriaModel.C18.Loop
 namespace C18
 open Py List
 
@@ -357,6 +358,25 @@ example : (match arun (init 1000) [.add (.plain 0) 1005 (some (.str ['x'])) [], 
       .remove (.str ['x'])] with
     | .ok s' evs => decide (s'.sched = [] ∧ firedOf evs = [0])
     | _ => false) = true := by decide
+
+/-! ## the driver loop -/
+
+/-- **The Schedule driver is never removed**: `drivers.run()` drops a driver whose `run()` lets an
+exception escape, for good.  Over every history of schedule API calls (from plugins, drivers, event
+functions) and rounds of `drivers.run()` from a fresh schedule, `Schedule.run()` never raises, so
+the driver is still in `drivers._drivers` at the end, and the name invariant holds. -/
+theorem schedule_driver_stays (P : Prog) (now : Nat) (os : List LOp) (r : Loop × List Ev)
+    (h : lrun P (linit now) os = some r) : r.1.alive = true ∧ NameInv r.1.s :=
+  lrun_keeps P os (linit now) r h rfl (init_nameInv now)
+
+/-- **Every round of `drivers.run()` completes the due work**: while the driver is in the loop, one
+round leaves no scheduled event due — whatever the functions that ran scheduled meanwhile — and
+the driver stays. -/
+theorem drivers_round_completes (P : Prog) (l : Loop) (picks : List Name) (r : Loop × List Ev)
+    (h : driversRun P l picks = some r) (ha : l.alive = true) (hi : NameInv l.s) :
+    r.1.alive = true ∧ (∀ e ∈ r.1.s.sched, l.s.now ≤ e.t) :=
+  have := driversRun_keeps P l picks r h ha hi
+  ⟨this.1, this.2.2.2⟩
 
 /-! ## the Scheduler plugin on top of the schedule
 
